@@ -2,6 +2,7 @@ import PW.Props.C01
 import PW.Proofs.SpecLemmas
 import PW.Proofs.Grid
 import PW.Proofs.Channels
+import PW.Proofs.Projective
 /-!
 # C09 — POVM measurement: probabilities and post-state
 
@@ -51,6 +52,15 @@ theorem povm_weight_nonnegative {a b : Type} [Fintype a] [Fintype b] [DecidableE
     0 ≤ Matrix.trace (PW.Channels.emb (b := b) M * ρ * (PW.Channels.emb M)ᴴ) :=
   PW.Channels.povm_weight_nonneg M ρ hρ
 
+/-- **a projective POVM element reproduces collapse**: with `M = |o⟩⟨o|` on the subsystem at position
+`p`, the unnormalised post-state `(M ⊗ I) ρ (M ⊗ I)†` is the projected state of C04 / C05 (every
+space, every position, every outcome inside the dimension) — so its trace is the Born weight and a
+projective measurement is the special case of the POVM rule -/
+theorem projective_element_collapses (dims : List Nat) (p o : Nat) (hp : p < dims.length) (ho : o < dims.getD p 0)
+    (ρ : Tensor R) (r c : List Nat) (hr : r.length = dims.length) (hc : c.length = dims.length) :
+    applyOn dims [p] (projector o) ρ (r ++ c) = projectOn dims p o ρ (r ++ c) :=
+  applyOn_projector dims p o hp ho ρ r c hr hc
+
 end PW.Props.C09
 
 #print axioms PW.Props.C09.povm_post_state_plan
@@ -58,3 +68,4 @@ end PW.Props.C09
 #print axioms PW.Props.C09.trace_add
 #print axioms PW.Props.C09.povm_weights_complete
 #print axioms PW.Props.C09.povm_weight_nonnegative
+#print axioms PW.Props.C09.projective_element_collapses
